@@ -107,7 +107,7 @@ def mac_rules(facts, rep):
     ex = Ex(f)
     ps = paths(f)
     rep.count("aes_read_paths", len(ps))
-    A_REM = r"^Eq\(.*data_remaining"
+    A_REM = r"data_remaining"
     A_CT = r"constant_time_eq"
     # order of effects
     upd = calls_matching(f, r"Mac::update$")
@@ -131,7 +131,8 @@ def mac_rules(facts, rep):
     # decision table over the paths
     for p in ps:
         o = outcome(p)
-        rem = [v for a, v in p["decisions"] if re.search(A_REM, a)]
+        # decisions on `data_remaining == 0`, normalised by the path engine to (expr, 0) / (expr, not-in (0,)): 1 = "is zero"
+        rem = [(1 if v == 0 else 0) for a, v in p["decisions"] if re.search(A_REM, a) and not re.search(r"Try::branch|constant_time_eq", a)]
         cte = decided(p, A_CT)
         if rem and rem[0] == 1:
             good = o[0] == "Ok" and o[1] == ("const", "usize", 0) and not p["effects"]
